@@ -43,7 +43,7 @@ ASSUMPTIONS = ["the inverse converters reproduce the historical state shapes (ke
                "connection ids invented by convert_4_5 (uuid4) are not compared across loads"]
 LEVEL_TEXT = "exploration: all shipped dumps are covered, mutations and synthetic old-version states are sampled"
 LEVEL_NOTE = "format versions below 12 are covered only by the shipped dumps (0.11, 0.18, 7, 10, 11)"
-QUICK_N, THOROUGH_N = 24_000, 800_000
+QUICK_N, THOROUGH_N = 19_000, 800_000
 
 CUR = 21
 DATA = os.path.join(REPO, "test", "mitmproxy", "data")
